@@ -334,7 +334,10 @@ def feature_of(links):
 
 
 def own_feature(links):
+    """Stable label of the own-children variant that matters when resolution fails."""
     owns = sorted({l.own for l in links if not l.restoring}) or sorted({l.own for l in links})
+    if 'same-name-section-other-type' in owns:
+        return 'same-name-section-other-type'
     return '+'.join(owns)
 
 
@@ -477,7 +480,7 @@ def scenario(col, name, part, doc, links, wit, backend, cycles=2):
     content0 = None
     kind, res = h.call(doc.finalize)
     if kind == 'exc':
-        col.fail(check=name + '/finalize-returns', cls={'clause': 'finalize-returns', 'feature': '%s raising %s' % (own_feature(links), type(res).__name__)},
+        col.fail(check=name + '/finalize-returns', cls={'clause': 'finalize-returns', 'feature': own_feature(links)},
                  witness=wit, detail='finalize() raised %r' % (res,))
         return 'finalize-raised'
     check_finalized(col, name, doc, links, frame0, wit, 'finalize#1')
@@ -681,7 +684,9 @@ def include_scenarios(env, tier, seed, part):
 def _build_include(shape, l, url, term, tpath, own, extra=()):
     text = url if tpath is None else url + '#' + tpath
     doc, secs = build_doc(shape, link=_link_texts(shape, extra), include={l: text})
-    target = list.__iter__(term._sections).__next__() if tpath is None else resolve(term, tpath)
+    target = next(list.__iter__(term._sections), None) if tpath is None else resolve(term, tpath)
+    if target is None:          # the published document was damaged by an earlier scenario (reported there)
+        return None, None
     if not add_own_children(secs[l], target, own):
         return None, None
     links = []
